@@ -1,6 +1,7 @@
 package main
 
 import (
+	"context"
 	"bytes"
 	"encoding/base64"
 	"fmt"
@@ -776,12 +777,19 @@ func runChain(nglobal int, spec string, hdrTok string) (string, []string) {
 		}
 	}
 	hs := make([]rux.HandlerFunc, len(parts))
+	ctxLost, lostBy := false, 0
 	for i, p := range parts {
 		i := i
 		f := strings.Split(p, ",")
 		kind, acts := f[0], f[1:]
 		var inner rux.HandlerFunc
 		generic := func(w http.ResponseWriter, r *http.Request) {
+			// a wrapped std handler takes part in the chain like a native one: it gets the request of the chain, with
+			// the request context (values stored by outer wrappers under typed keys) a native handler sees in c.Req
+			if v, _ := r.Context().Value(gatesCtxKey{}).(string); v != "outer" && !ctxLost {
+				ctxLost = true
+				lostBy = i
+			}
 			for _, a := range acts {
 				effect(i, a, w)
 			}
@@ -837,13 +845,20 @@ func runChain(nglobal int, spec string, hdrTok string) (string, []string) {
 	last := len(hs) - 1
 	r.GET("/p", hs[last], hs[nglobal:last]...)
 	req := httptest.NewRequest("GET", "/p", nil)
+	req = req.WithContext(context.WithValue(req.Context(), gatesCtxKey{}, "outer"))
 	if v, ok := unohx(hdrTok); ok {
 		req.Header.Set("Authorization", v)
 	}
 	w := httptest.NewRecorder()
 	r.ServeHTTP(w, req)
-	return fmt.Sprintf("st%d trace=%s www=%s ;; body=%s", w.Code, strings.Join(trace, "."), showWWW(w.Result()), hx(w.Body.String())), nil
+	var orc []string
+	if ctxLost {
+		orc = append(orc, fmt.Sprintf("C20 adapters: the std handler wrapped at chain position %d did not get the request context of the chain (a value stored under a typed key by an outer wrapper is gone)", lostBy))
+	}
+	return fmt.Sprintf("st%d trace=%s www=%s ;; body=%s", w.Code, strings.Join(trace, "."), showWWW(w.Result()), hx(w.Body.String())), orc
 }
+
+type gatesCtxKey struct{}
 
 func (gatesEngine) Run(ops []string) (ans []string, oracle []string) {
 	for _, op := range ops {
